@@ -61,27 +61,28 @@ DRIVERS = {
     "nid": lambda rng, tier: gen.gen_nid(rng, T(tier, 12, 200)),
     "nodeid": lambda rng, tier: gen.gen_nodeid(rng, T(tier, 40, 2000)),
     "keys": lambda rng, tier: gen.gen_keys(rng, T(tier, 60, 3000)),
+    "api": lambda rng, tier: gen.gen_api(rng, T(tier, 24, 400)),
 }
 
 # property -> drivers, bounded models
 CHECKS = {
-    "C01": {"drivers": ["auth", "valid"], "models": ["gen_secp"]},
+    "C01": {"drivers": ["auth", "valid", "api"], "models": ["gen_secp"]},
     "C02": {"drivers": ["struct", "valid"], "models": ["gen_secp", "gen_ed"]},
-    "C03": {"drivers": ["hist_full", "auth_light", "struct", "text", "prefix", "typed_b", "nodeid", "keys"], "models": ["hist_k256", "gen_ed"]},
+    "C03": {"drivers": ["hist_full", "auth_light", "struct", "text", "prefix", "typed_b", "nodeid", "keys", "api"], "models": ["hist_k256", "gen_ed"]},
     "C04": {"drivers": ["valid", "struct", "hist_full", "size_full"], "models": ["gen_secp"]},
     "C05": {"drivers": ["hist", "hist_long", "size"], "models": ["hist_k256", "hist_ed"]},
     "C06": {"drivers": ["hist", "size", "seq"], "models": ["hist_k256"]},
     "C07": {"drivers": ["seq", "hist"], "models": ["hist_k256"]},
     "C08": {"drivers": ["hist", "hist_long", "seq", "size"], "models": ["hist_k256"]},
     "C09": {"drivers": ["size", "hist", "struct"], "models": ["hist_k256"]},
-    "C10": {"drivers": ["nid", "valid", "hist", "cross"], "models": ["hist_ed"]},
-    "C11": {"drivers": ["cross", "struct", "auth_light", "valid"], "models": ["gen_secp", "gen_ed"]},
+    "C10": {"drivers": ["nid", "valid", "hist", "cross", "api"], "models": ["hist_ed"]},
+    "C11": {"drivers": ["cross", "struct", "auth_light", "valid", "api"], "models": ["gen_secp", "gen_ed"]},
     "C12": {"drivers": ["text", "hist_full", "size_full"], "models": ["text"]},
-    "C13": {"drivers": ["prefix", "valid"], "models": ["stream"]},
+    "C13": {"drivers": ["prefix", "valid", "api"], "models": ["stream"]},
     "C14": {"drivers": ["typed_q", "typed_b", "hist_full"], "models": ["typed"]},
     "C15": {"drivers": ["eq", "hist"], "models": ["hist_k256"]},
     "C16": {"drivers": ["nodeid"], "models": ["nodeid"]},
-    "C17": {"drivers": ["keys"], "models": ["key"]},
+    "C17": {"drivers": ["keys", "api"], "models": ["key"]},
 }
 
 
@@ -179,7 +180,11 @@ def run_check(pid, tier, seed, keep=False):
     # model runs (bounded exhaustive TLC) -- may contribute further scripts (spec -> impl)
     model_stats = []
     from . import mc
-    for mname in spec.get("models", []):
+    deep = {"hist_k256": "hist_k256_deep", "hist_ed": "hist_ed_deep", "gen_secp": "gen_secp_deep", "gen_ed": "gen_ed_deep"}
+    mnames = list(spec.get("models", []))
+    if tier == "thorough":
+        mnames += [deep[m] for m in spec.get("models", []) if m in deep]
+    for mname in mnames:
         ms = mc.MODELS[mname](tier, wd, seed)
         model_stats.append(ms["stats"])
         scripts.extend(ms.get("scripts", []))
